@@ -123,7 +123,7 @@ def add_metrics(draw, spec, max_met=4):
 
 
 @st.composite
-def add_conns(draw, spec, max_choices=2, max_side=3, allow_grp=True, small=False):
+def add_conns(draw, spec, max_choices=2, max_side=3, allow_grp=True, small=False, start_bias=2):
     gens = gen_nodes(spec)
     n_cc = draw(st.integers(1, max_choices))
     alphabet = DEG_ALPHABET
@@ -137,7 +137,7 @@ def add_conns(draw, spec, max_choices=2, max_side=3, allow_grp=True, small=False
                 spec['nodes'][nm] = {'k': 'conn', 'deg': draw(st.sampled_from(alphabet)),
                                      'rep': draw(st.booleans())}
                 # bias towards permanent parents (start nodes) so that not everything is conditional
-                parent = draw(st.sampled_from(gens+spec['start']*2))
+                parent = draw(st.sampled_from(gens+spec['start']*start_bias))
                 spec['edges'].append([parent, nm])
                 conn_names.append(nm)
             items = list(conn_names)
